@@ -3,6 +3,7 @@ package props
 import (
 	"encoding/json"
 	"fmt"
+	"golang.org/x/text/encoding/charmap"
 	"os"
 
 	"verif/shadow"
@@ -44,6 +45,11 @@ func ReplayCase(prop string, raw []byte) (ok bool, exit int) {
 		os.Setenv("TCELL_TRUECOLOR", "disable")
 	}
 	se := newSession(ti, mode)
+	if f.Case.Phase == "latin1" {
+		c09locale("en_US.ISO8859-1")
+		se.dec = xtextDecoder(charmap.ISO8859_1)
+		se.charset = "ISO8859-1"
+	}
 	w, h := f.Case.W, f.Case.H
 	if w == 0 {
 		w, h = 16, 6
